@@ -1,4 +1,5 @@
 CONSTANTS
+  Sites <- SiteTable
   BITS = 5
 SPECIFICATION GenSpec
 INVARIANT EmitWindow
